@@ -324,7 +324,30 @@ func (h *concHelper) reference(tape []uint32) ([][]string, error) {
 // pristineProbe asks a fresh process (which has run nothing but the probe
 // battery itself) for the probe dump.
 func pristineProbe() string {
+	// one pristine process per check invocation is enough: the result is cached
+	// in the invocation's scratch directory
+	cache := ""
+	if d := os.Getenv("VERIF_SCRATCH_RUN"); d != "" {
+		cache = d + "/pristine-probe.txt"
+		if b, err := os.ReadFile(cache); err == nil && len(b) > 0 {
+			return string(b)
+		}
+	}
+	res := pristineProbeUncached()
+	if cache != "" {
+		tmp := fmt.Sprintf("%s.%d", cache, os.Getpid())
+		if os.WriteFile(tmp, []byte(res), 0o644) == nil {
+			os.Rename(tmp, cache)
+		}
+	}
+	return res
+}
+
+func pristineProbeUncached() string {
 	exe, _ := os.Executable()
+	if p := os.Getenv("VERIF_PLAIN_VH"); p != "" && !strings.Contains(exe, "vhinst") {
+		exe = p
+	}
 	cmd := exec.Command(exe, "C18", "helper")
 	cmd.Stdin = strings.NewReader("PROBE\n")
 	cmd.Env = append(os.Environ(), "GORACE=halt_on_error=0")
@@ -478,17 +501,24 @@ func C18() *sim.Check {
 
 	// isolation over histories: probe0 ; (polluter ; probe)*
 	var probe0 string
-	iso := &sim.Batch{Name: "isolation", Quick: 6000, Thorough: 120_000, Isolated: true, PerProc: 60, Workers: 16, Env: raceEnv, ChildTimeout: 240 * time.Second, ClassifyAbort: classifyRace, MaxShrink: 150}
+	iso := &sim.Batch{Name: "isolation", Quick: 12000, Thorough: 250_000, Isolated: true, PerProc: 1, Workers: 16, Env: raceEnv, ChildTimeout: 240 * time.Second, ClassifyAbort: classifyRace, MaxShrink: 150}
 	// probe0 comes from a separate pristine process; this process runs its first
 	// polluter BEFORE its first probe, so state that only the first use fixes
 	// (lazy tables, anything "burnt in" by the first error) is covered too
 	iso.ChildInit = func() { probe0 = pristineProbe() }
+	// isolation histories need neither the yield points nor the race detector:
+	// their children run the plain build (50 times faster to start and to build
+	// the lazy tables), one history per process
+	iso.ChildExe = os.Getenv("VERIF_PLAIN_VH")
+	if iso.ChildExe != "" {
+		iso.Env = nil
+	}
 	iso.Run = func(c *sim.RunCtx) *sim.Outcome {
 		t := c.T
 		if probe0 == "" {
 			probe0 = pristineProbe()
 		}
-		n := 1 + t.Choose(4)
+		n := 1 + t.Choose(7)
 		var hist []string
 		for i := 0; i < n; i++ {
 			var op concOp
